@@ -30,6 +30,9 @@ impl Out {
     }
     /// run `f`, reporting a panic as a failure of `prop`
     pub fn guard<F: FnOnce(&mut Out)>(&mut self, prop: &str, check: &str, f: F) {
+        // progress marker: if the process dies inside this check (non-unwinding panic, signal), the
+        // last marker on stderr names the property and the check that was running
+        eprintln!("AT\t{}\t{}\t{}", self.module, prop, check);
         let r = catch_unwind(AssertUnwindSafe(|| {
             let mut inner = Out::new(self.module);
             f(&mut inner);
